@@ -75,6 +75,7 @@ func runC05(c *Ctx) *Replay {
 		x := sc
 		x.Sched = s
 		x.Reader = readerKinds[(i+c.R.Intn(len(readerKinds)))%len(readerKinds)]
+		x.Writer = writerKinds[c.R.Intn(len(writerKinds))]
 		x.Decoder = []string{"decode", "make"}[c.R.Intn(2)]
 		viol := execHistory(c.N, &x)
 		c.Count("evaluations", 1)
@@ -98,6 +99,12 @@ func execHistory(n *Node, sc *Scenario) *Violation {
 		return nil
 	}
 	sink := simnet.NewSink(nil)
+	// the sending side writes the whole history through ONE writer: the sink itself, or a
+	// writer of the given kind that the sender made once and keeps using
+	var hw io.Writer = sink
+	if sc.Writer != "" && sc.Writer != "plain" {
+		hw = wrapWriter(sc.Writer, sink)
+	}
 	var bounds []int
 	var wants []val.Value
 	simrt.SetMapOrder(sc.Order.Strategy, sc.Order.Seed)
@@ -111,7 +118,7 @@ func execHistory(n *Node, sc *Scenario) *Violation {
 			return mismatch("bridge|fill", err.Error(), nil)
 		}
 		var eerr error
-		cr := safeCall(0, 0, func() { eerr = rec.EncodeBebop(sink) })
+		cr := safeCall(0, 0, func() { eerr = rec.EncodeBebop(hw) })
 		if v := callViolation(&cr, sc, sb.Schema, "encode"); v != nil {
 			simrt.SetMapOrder(simrt.OrderNative, 0)
 			return v
@@ -165,10 +172,7 @@ func execHistory(n *Node, sc *Scenario) *Violation {
 			return mismatch("history-decode-error|"+kind, fmt.Sprintf("record %d of %d (%s): decoder failed on a healthy stream: %v", i, len(bounds), typ, derr),
 				map[string]string{"record_kind": kind, "reader": sc.Reader})
 		}
-		consumed := link.Pos + link.SeekPast
-		if rw.buffered != nil {
-			consumed -= rw.buffered()
-		}
+		consumed := rw.consumed(link)
 		if consumed != bounds[i] {
 			class, dir := "overread", "more"
 			if consumed < bounds[i] {
@@ -350,12 +354,23 @@ func runC06(c *Ctx) *Replay {
 	errName := []string{"eof", "eof", "unexpected-eof"}[c.R.Intn(3)]
 	for _, k := range cuts {
 		ek := elemKindAt(spans, k)
-		for vi, variant := range []string{"unmarshal", "decode", "decode-chunked", "makefrombytes"} {
+		for vi, variant := range []string{"unmarshal", "decode", "decode-chunked", "makefrombytes", "reuse"} {
 			if vi == 3 && k%7 != 0 {
 				continue
 			}
 			sc := Scenario{Kind: "truncate", Prog: b.Prog.ID, Mask: b.Mask, PeerMask: peerMask, OldPeer: oldPeer, Type: pk.Type, Value: &v, Cut: k, Decoder: variant}
 			switch variant {
+			case "reuse":
+				// the receiver is not fresh: the COMPLETE encoding was decoded into it before
+				// (a receive loop that keeps one record value); byte and stream path in turn
+				sc.Reuse = true
+				sc.Decoder = "unmarshal"
+				if k%2 == 1 {
+					sc.Decoder = "decode"
+					sc.Sched = &simnet.Schedule{Name: "all"}
+					sc.Reader = "plain"
+					sc.RFault = &simnet.ReadFault{At: k, Err: "eof"}
+				}
 			case "decode":
 				sc.Sched = &simnet.Schedule{Name: "all"}
 				sc.Reader = "plain"
@@ -497,6 +512,13 @@ func execTruncate(n *Node, sc *Scenario) *Violation {
 		return nil
 	}
 	var do decOut
+	if sc.Reuse {
+		n.prefill = data
+		if sc.Giant != nil {
+			n.prefill, _ = validEncoding(b, sc)
+		}
+		defer func() { n.prefill = nil }()
+	}
 	if isStreamDecoder(sc.Decoder) {
 		rf := &simnet.ReadFault{At: k, Err: "eof"}
 		if sc.RFault != nil {
